@@ -53,12 +53,16 @@ type icConfig struct {
 
 var icPool = []string{"fmt", "os", "io", "strings", "math/rand", "crypto/rand", "text/template", "html/template",
 	"example.com/a", "example.com/b/rand", "github.com/x/fmt", "github.com/x/y", "gopkg.in/yaml.v2",
+	"example.com/a/v2", "fmt/v2", // a package and its sub-package (one path is an element-wise prefix of the other), same package name
 	"example.com/rand1", "z.org/fmt1", // their names are what the conflict loop generates for a second "rand" / "fmt"
 	"B/x"} // sorts before "C": a blank or dot import of it is processed before the cgo import
 
 func icDefaultName(p string) string {
 	if p == "gopkg.in/yaml.v2" {
 		return "yaml"
+	}
+	if strings.HasSuffix(p, "/v2") {
+		p = strings.TrimSuffix(p, "/v2")
 	}
 	return p[strings.LastIndex(p, "/")+1:]
 }
